@@ -79,6 +79,9 @@ def Verdict.allowed : Verdict → Bool
 /-- a short-option cluster containing `x` (skip the first source line) -/
 def hasSkipLine (o : String) : Bool := Py.startsWith o "-" && !Py.startsWith o "--" && (o.toList.drop 1).contains 'x'
 
+/-- a script word `_find_script_path` does not resolve: it starts with a prefix the shell expands (`~`) -/
+def scriptRefused (s : String) : Bool := scriptRefusedPrefixes.any (fun p => Py.startsWith s p)
+
 /-- the decision of `classify` once the scans are made: `opts` option words, `m` the `-m` module, `fs` the script word -/
 def decideV (env : Env) (cwd : String) (opts : List String) (m : Option String) (fs : Option String) : Verdict :=
   if opts.any (fun o => safeFlags.contains o) then .safeFlag
@@ -88,7 +91,10 @@ def decideV (env : Env) (cwd : String) (opts : List String) (m : Option String) 
   else if opts.any hasSkipLine then .askOption
   else match fs with
     | none => .noScript
-    | some s => .analysed (env.resolve cwd s) (env.fileSafe (env.resolve cwd s))
+    | some s =>
+      -- `_find_script_path` gives up on a word the shell would expand (`~/x.py`): which file runs is not known
+      if scriptRefused s then .noScript
+      else .analysed (env.resolve cwd s) (env.fileSafe (env.resolve cwd s))
 
 /-- `classify`: `tokens` = the python command's words (program name first) -/
 def classify (env : Env) (cwd : String) (tokens : List String) : Verdict :=
